@@ -62,12 +62,10 @@ char *qstrtrim(char *str) {
         ;
     for (se = ss; *se != '\0'; se++)
         ;
-    for (se--;
-            se >= ss
-                    && (*se == ' ' || *se == '\t' || *se == '\r' || *se == '\n');
-            se--)
+    for (; se > ss
+            && (se[-1] == ' ' || se[-1] == '\t' || se[-1] == '\r'
+                    || se[-1] == '\n'); se--)
         ;
-    se++;
     *se = '\0';
 
     if (ss > str) {
@@ -118,12 +116,11 @@ char *qstrtrim_tail(char *str) {
         return NULL;
 
     char *se;
-    for (se = str + strlen(str) - 1;
-            se >= str
-                    && (*se == ' ' || *se == '\t' || *se == '\r' || *se == '\n');
-            se--)
+    for (se = str + strlen(str);
+            se > str
+                    && (se[-1] == ' ' || se[-1] == '\t' || se[-1] == '\r'
+                            || se[-1] == '\n'); se--)
         ;
-    se++;
     *se = '\0';
 
     return str;
